@@ -273,4 +273,71 @@ theorem params_roundtrip : ∀ (k : Nat) (ps : List Param), ps.length ≤ k → 
         cases hv : p.var <;>
           simp [parseParams, hv, h1, h2, hrec, hps, ← hgrp] <;> simp_all
 
+/-! ### LOCAL block -/
+
+theorem foldl_max_ge (ls : List Local) (m : Nat) : m ≤ ls.foldl (fun m l => max m l.name.length) m := by
+  induction ls generalizing m with
+  | nil => exact Nat.le_refl _
+  | cons l ls ih => exact Nat.le_trans (Nat.le_max_left _ _) (ih _)
+
+/-- the name column has width 0 exactly when there is no local (names are not empty) -/
+theorem localsWidth_zero_iff (ls : List Local) (hn : ∀ l ∈ ls, l.name.length ≠ 0) : localsWidth ls = 0 ↔ ls = [] := by
+  have hflag : ExpPrec.localsWidthIsNameLength = true := rfl
+  simp only [localsWidth, hflag, if_true]
+  cases ls with
+  | nil => simp
+  | cons l ls =>
+    simp only [List.foldl_cons, Nat.zero_max]
+    have := foldl_max_ge ls l.name.length
+    have := hn l (by simp)
+    constructor
+    · intro h; omega
+    · intro h; cases h
+
+theorem parseLocalList_roundtrip : ∀ (ls : List Local), (∀ l ∈ ls, wfTy l.ty) → ∀ D, (∀ l ∈ ls, tyDepth l.ty ≤ D) →
+    ∀ n, ls.length + D + 1 ≤ n → ∀ r,
+    parseLocalList n (ls.flatMap localToks ++ .kw "END_LOCAL" :: .sym ";" :: r) = some (ls, r) := by
+  intro ls
+  induction ls with
+  | nil =>
+    intro _ D _ n hn r
+    obtain ⟨k, rfl⟩ : ∃ k, n = k + 1 := ⟨n - 1, by omega⟩
+    simp [parseLocalList]
+  | cons l ls ih =>
+    intro hwf D hD n hn r
+    obtain ⟨k, rfl⟩ : ∃ k, n = k + 1 := ⟨n - 1, by simp at hn; omega⟩
+    have hrec := ih (fun x hx => hwf x (List.mem_cons_of_mem _ hx)) D (fun x hx => hD x (List.mem_cons_of_mem _ hx)) k
+      (by simp at hn; omega) r
+    have hd : tyDepth l.ty ≤ k := by have := hD l (by simp); simp at hn; omega
+    have hwl : wfTy l.ty := hwf l (by simp)
+    obtain ⟨name, ty, init⟩ := l
+    cases init with
+    | some e =>
+      have hty := type_roundtrip ty hwl k hd
+        (.sym ":=" :: .ex e :: .sym ";" :: (ls.flatMap localToks ++ .kw "END_LOCAL" :: .sym ";" :: r)) (by simp [TyFol])
+      simp only [List.flatMap_cons, localToks, List.append_assoc, List.cons_append, List.nil_append, parseLocalList]
+      rw [hty]; simp [hrec]
+    | none =>
+      have hty := type_roundtrip ty hwl k hd
+        (.sym ";" :: (ls.flatMap localToks ++ .kw "END_LOCAL" :: .sym ";" :: r)) (by simp [TyFol])
+      simp only [List.flatMap_cons, localToks, List.append_assoc, List.cons_append, List.nil_append, parseLocalList]
+      rw [hty]; simp [hrec]
+
+/-- **LOCAL block: print/parse round trip, independent of the line length.**  The block is printed exactly when the
+algorithm has local variables, and reading it back gives the same variables with the same types and initialisers. -/
+theorem locals_roundtrip (ls : List Local) (hn : ∀ l ∈ ls, l.name.length ≠ 0) (hwf : ∀ l ∈ ls, wfTy l.ty)
+    (D : Nat) (hD : ∀ l ∈ ls, tyDepth l.ty ≤ D) (r : List DTok) (hr : ∀ r', r ≠ .kw "LOCAL" :: r') :
+    parseLocals (ls.length + D + 1) (localsToks ls ++ r) = some (ls, r) := by
+  unfold localsToks
+  by_cases h0 : localsWidth ls = 0
+  · have : ls = [] := (localsWidth_zero_iff ls hn).mp h0
+    subst this
+    simp only [h0, if_true, List.nil_append]
+    unfold parseLocals
+    split
+    · next r' => exact absurd rfl (hr r')
+    · rfl
+  · simp only [h0, if_false, List.append_assoc, List.cons_append, List.nil_append, parseLocals]
+    exact parseLocalList_roundtrip ls hwf D hD _ (Nat.le_refl _) r
+
 end StepModel.Express
